@@ -257,6 +257,11 @@ func (m *SrvMonitor) Step(trx int64, frame []byte, obs Obs, op string) {
 	}
 	id := q.Identity()
 	macs := Hex(q.Chaddr)
+	if m.staticOf(q.Chaddr) != nil {
+		// a reservation is made for a hardware address (C03): a reserved host is that hardware address, whatever
+		// client identifier it sends (and whoever else sends the same identifier)
+		id = "hw:" + macs
+	}
 	if prev, ok := m.idOfMac[macs]; ok && prev != id {
 		m.bad[prev], m.bad[id] = true, true // this hardware address does not use one identity consistently
 	}
